@@ -780,6 +780,181 @@ namespace
     }
 }
 
+namespace
+{
+    // ---- long histories on ONE object: a writer reused for many messages while the caller clears / shrinks /
+    //      appends to the string it borrows; one reader and one buffer writer over a stream of > 200000 bytes ----
+    template <class F> void with_value(long i, int seed, F f)
+    {
+        static const size_t L[4] = {0, 1, 16, 3000};
+        long k = i * 7 + seed;
+        switch (k % 10)
+        {
+        case 0:
+            f((u8)(i * 31 + 1));
+            break;
+        case 1:
+            f((u16)(i * 257 + 1));
+            break;
+        case 2:
+            f((u32)(i * 65537u + 3));
+            break;
+        case 3:
+            f((u64)((u64)i * 0x0101010101010101ull + 5));
+            break;
+        case 4:
+            f((f64)i / 3.0);
+            break;
+        case 5:
+            f(buf_content(L[(((uint32_t)i + (uint32_t)seed) * 2654435761u >> 13) % 4], (int)(i % 3)));
+            break;
+        case 6:
+            f(std::vector<u16>((size_t)(i % 5), (u16)(i * 3 + 1)));
+            break;
+        case 7:
+            f(std::pair<u8, u32>((u8)i, (u32)(i * 11 + 2)));
+            break;
+        case 8:
+            f(std::map<u8, str>{{(u8)i, buf_content(L[i % 4], 0)}, {(u8)(i + 1), str("x")}});
+            break;
+        default:
+        {
+            Plain p;
+            p.a = (i32)(i * 7);
+            p.b = (u8)i;
+            p.c = (i16)(-i);
+            p.d = (f64)i * 0.5;
+            f(p);
+            break;
+        }
+        }
+    }
+    static bool tail_equal(const std::string &a, const std::string &b)
+    {
+        if (a.size() != b.size())
+            return false;
+        size_t n = a.size() < 96 ? a.size() : 96;
+        return memcmp(a.data() + a.size() - n, b.data() + b.size() - n, n) == 0;
+    }
+    static void long_history_case()
+    {
+        int seed = mc::choose(4);
+        long N = mc::thorough() ? 300000 : 70000;
+        mc::describe("old[" C09_COMPILER "] long history #%d: %ld operations on ONE binary_string_writer (caller clears / shrinks / appends to the borrowed string in between), "
+                     "then ONE binary_buffer_writer and ONE binary_buffer_reader over the whole stream",
+                     seed, N);
+        mc::nontrivial();
+        std::string out, expect, stream;
+        igris::archive::binary_string_writer w(out);
+        long writes = 0, clears = 0, maxlen = 0;
+        mc::crash_context("C09.old.long_history.string_writer");
+        for (long i = 0; i < N; i++)
+        {
+            int op = (int)((i * 5 + seed) % 8);
+            const char *what = "write";
+            if (op <= 4)
+            {
+                with_value(i, seed, [&](const auto &v) {
+                    igris::serialize(w, v);
+                    ref_enc(expect, v);
+                    ref_enc(stream, v);
+                });
+                writes++;
+            }
+            else if (op == 5)
+            {
+                what = "caller appends a byte";
+                out.push_back((char)0x7E);
+                expect.push_back((char)0x7E);
+            }
+            else if (op == 6)
+            {
+                what = "caller drops the last bytes";
+                size_t cut = out.size() < 3 ? out.size() : 3;
+                out.resize(out.size() - cut);
+                expect.resize(expect.size() - cut);
+            }
+            else if (i >= N / 2 || out.size() > 250000)
+            { // first half: the string grows past 65536 and 200000 bytes before it is cleared; second half: a transmit loop
+                what = "caller clears the string";
+                if (out != expect)
+                    mc::violation("C09.old.long_history.string_writer", "history #%d op %ld: before the caller's clear() the string (%zu bytes) differs from the expected bytes (%zu)",
+                                  seed, i, out.size(), expect.size());
+                out.clear();
+                expect.clear();
+                clears++;
+            }
+            if ((long)out.size() > maxlen)
+                maxlen = (long)out.size();
+            if (!tail_equal(out, expect) || (i % 256 == 0 && out != expect))
+            {
+                mc::violation("C09.old.long_history.string_writer", "history #%d op %ld (%s; %ld writes, %ld clears so far): the borrowed string has %zu bytes ..%s, expected %zu bytes ..%s",
+                              seed, i, what, writes, clears, out.size(), hexs(out.substr(out.size() > 16 ? out.size() - 16 : 0), 16).c_str(), expect.size(),
+                              hexs(expect.substr(expect.size() > 16 ? expect.size() - 16 : 0), 16).c_str());
+                return;
+            }
+            if (i % 4096 == 0)
+                mc::tick();
+        }
+        mc::count("long_history_writes", writes);
+        mc::count("long_history_clears", clears);
+        if (maxlen < 200000 || stream.size() < 200000)
+            mc::harness_error("long history too short: longest string %ld, stream %zu", maxlen, stream.size());
+        {
+            // ONE buffer writer over the whole stream, exactly-sized destination
+            Exact dst(stream.size(), 0xEE);
+            igris::archive::binary_buffer_writer bw(dst.p, dst.n);
+            mc::crash_context("C09.old.long_history.buffer_writer");
+            size_t pos = 0;
+            for (long i = 0; i < N; i++)
+                if ((i * 5 + seed) % 8 <= 4)
+                {
+                    size_t before = pos;
+                    with_value(i, seed, [&](const auto &v) {
+                        igris::serialize(bw, v);
+                        std::string r;
+                        ref_enc(r, v);
+                        pos += r.size();
+                    });
+                    if (bw.ptr != dst.p + pos || memcmp(dst.p + before, stream.data() + before, pos - before) != 0)
+                    {
+                        mc::violation("C09.old.long_history.buffer_writer", "history #%d value %ld at stream offset %zu: wrong bytes or position (%ld, want %zu)", seed, i, before,
+                                      (long)(bw.ptr - dst.p), pos);
+                        return;
+                    }
+                }
+        }
+        {
+            // ONE reader over the whole stream
+            Exact src(stream.data(), stream.size());
+            igris::archive::binary_buffer_reader rd(src.p, src.n);
+            mc::crash_context("C09.old.long_history.buffer_reader");
+            size_t pos = 0;
+            bool bad = false;
+            for (long i = 0; i < N && !bad; i++)
+                if ((i * 5 + seed) % 8 <= 4)
+                    with_value(i, seed, [&](const auto &v) {
+                        std::remove_cv_t<std::remove_reference_t<decltype(v)>> r{};
+                        igris::deserialize(rd, r);
+                        std::string e;
+                        ref_enc(e, v);
+                        pos += e.size();
+                        if (!eq(r, v) || (const char *)rd.pointer() != src.p + pos)
+                        {
+                            mc::violation("C09.old.long_history.buffer_reader", "history #%d value %ld (%zu bytes into the stream): %s, reader at %ld, want %zu", seed, i,
+                                          pos - e.size(), eq(r, v) ? "value ok" : "WRONG value", (long)((const char *)rd.pointer() - src.p), pos);
+                            bad = true;
+                        }
+                    });
+            if (!bad && pos != stream.size())
+                mc::harness_error("stream accounting");
+        }
+        mc::more_cases((uint64_t)N, (uint64_t)N);
+        mc::outcome(mc::fmt("long/%d/%zu", seed, stream.size()));
+        mc::crash_context("C09.old.harness");
+    }
+}
+
 #ifdef EXTRAS
 const char *const c09::framework = "old";
 #endif
@@ -850,6 +1025,7 @@ MC_INIT
     mc::add_check("old.raw_blocks", raw_blocks_case);
     mc::add_check("old.relocated_archives", relocated_case);
     mc::add_check("old.nested_serialize", nested_case);
+    mc::add_check("old.long_history", long_history_case);
     mc::add_check("old.interleaved_archives", interleaved_case);
     goldens().push_back({"CountedBlk", [] {
                              CountedBlk c;
